@@ -31,6 +31,7 @@ type Exec struct {
 	views    map[string]PtrV // array-field views: view ref symbol -> the field they snapshot
 	curState *State
 	curFrame *Frame
+	entryState *State
 	recoveredArg *Term // recover() value handed to a deferred call applied by contract
 	topRecovered *Term // for a function verified on its own: the symbolic value recover() returns
 }
@@ -76,6 +77,7 @@ type deferred struct {
 	args    []Val
 	pos     token.Pos
 	closure *FuncV
+	cond    Term // path condition under which the defer statement was executed
 }
 
 type panicExit struct {
@@ -344,6 +346,9 @@ func (ex *Exec) unwind(fr *Frame) {
 			var c *Contract
 			if fn != nil {
 				c = ex.prog.Contracts.Funcs[fn.String()]
+			}
+			if !d.cond.IsTrue() {
+				panic(unsupported("conditionally registered defer on a panicking path in %s", fr.fn))
 			}
 			reraise := ex.runDeferred(fr, d, st, cond, &val)
 			if c != nil && c.Recovers {
@@ -831,13 +836,28 @@ func (ex *Exec) instr(fr *Frame, b *ssa.BasicBlock, in ssa.Instruction, st *Stat
 	case *ssa.RunDefers:
 		// normal exit: deferred calls run with recover() == nil
 		for i := len(fr.defers) - 1; i >= 0; i-- {
-			ex.runDeferred(fr, fr.defers[i], st, reach, nil)
+			d := fr.defers[i]
+			if d.cond.IsTrue() {
+				ex.runDeferred(fr, d, st, reach, nil)
+				continue
+			}
+			// registered only on some paths: run it on a copy and merge
+			c := ex.vc.define("deferred", d.cond)
+			with := st.clone()
+			ex.runDeferred(fr, d, with, And(reach, c), nil)
+			merged := ex.merge([]*State{with, st.clone()}, []Term{c, Not(c)})
+			*st = *merged
 		}
 	case *ssa.Defer:
-		if b.Index != 0 {
-			panic(unsupported("conditional defer in %s", fr.fn))
+		for _, l := range fr.loops {
+			if l.body[b.Index] {
+				panic(unsupported("defer inside a loop in %s", fr.fn))
+			}
 		}
-		d := deferred{call: &x.Call, pos: x.Pos()}
+		d := deferred{call: &x.Call, pos: x.Pos(), cond: True}
+		if b.Index != 0 {
+			d.cond = reach
+		}
 		for _, a := range x.Call.Args {
 			d.args = append(d.args, ex.get(fr, a, st))
 		}
